@@ -241,8 +241,9 @@ def big_scripts(rng, tier):
     # zeros held back at the reset and 2^32 +- 1
     G = 1 << 32
     out.append(["s", "d100", "D%d" % (G + 100), "d50", "r", "s", "d3", "r"])
-    out.append(["z7", "s", "d9", "r", "s", "d5", "D%d" % (G - 8), "r", "s", "d4", "r"])
+    out.append(["z7", "s", "d9", "r", "s", "d5", "D%d" % (G - 8), "r", "d6", "s", "d4", "r"])     # bytes after the reset are outside a unit
     if tier != "quick":
+        out.append(["s", "d5", "D%d" % (G - 8), "r", "r", "o", "d6", "s", "d4", "r"])
         out.append(["s", "d5", "D%d" % (G - 10), "z2", "r", "o", "d6", "s", "d2", "r"])
         out.append(["s", "d5", "D%d" % (G - 7), "r", "s", "d4", "r"])
         out.append(["s", "d5", "D%d" % (G - 9), "r", "d6", "s", "d4", "r"])
